@@ -369,3 +369,39 @@ func genPipeline(r *hx.Rng, codec string) []byte {
 	out = append(append(out, byte(len(pps))), pps...)
 	return append(out, sl...)
 }
+
+// seiCorrCases: payloads and external parameters for the modelled sei.DecodePicTimingHevcSEI.
+func seiCorrCases(seed uint64, n int) []tcase {
+	r := hx.NewRng(seed)
+	const name = "sei.DecodePicTimingHevcSEI"
+	var cs []tcase
+	arg := func() int {
+		flags := r.Intn(16)
+		if r.Intn(2) == 0 {
+			flags |= 14 // the sub-picture branch with the count-driven loop
+		}
+		return flags | r.Pick(0, 1, 7, 23, 31)<<4 | r.Pick(0, 3, 7, 23, 31)<<9 | r.Pick(0, 2, 7, 31)<<14 | r.Pick(0, 1, 7, 31)<<19
+	}
+	for _, h := range []string{"-", "00", "ff", "0000000020", "071000001a00000180", "000000002000000000", "ffffffffffffffffffff",
+		"0000000000000000008000000000000000", "1fffffffffffffff", "00000300000300"} {
+		for k := 0; k < 6; k++ {
+			cs = append(cs, tcase{name, hx.UnHex(h), arg()})
+		}
+	}
+	for i := 0; i < n; i++ {
+		var in []byte
+		switch r.Intn(4) {
+		case 0:
+			in = r.Bytes(r.Range(0, 20), nil)
+		case 1:
+			in = r.Bytes(r.Range(0, 24), []byte{0, 0, 0, 1, 3, 0x80, 0xff})
+		default:
+			w := &bitw{}
+			w.put(r.U64(), r.Range(0, 12))
+			soup(r, w, r.Range(1, 30), r.Pick(5, 20, 40))
+			in = w.bytes(r.Bool())
+		}
+		cs = append(cs, tcase{name, in, arg()})
+	}
+	return cs
+}
